@@ -96,7 +96,9 @@ def gen_c07(rng, i):
 
 def gen_c09(rng, i):
     nh = rng.choice([2, 2, 3])
-    g = S.HistGen(rng, rng.sample(S.NAMES_PLAIN, rng.randint(2, 5)), nh=nh, logs=rng.random() < 0.3)
+    cfg = S.rand_cfg(rng)
+    cfg["skipnamecheck"] = rng.random() < 0.25
+    g = S.HistGen(rng, rng.sample(S.NAMES_PLAIN, rng.randint(2, 5)), nh=nh, cfg=cfg, logs=rng.random() < 0.3)
     g.steps.append({"op": "open", "h": 1})
     for t in range(rng.choice([0, 1, 3, 4, 5])):     # a few tables first, so that lower ranges exist
         g.add(h=1)
@@ -113,6 +115,11 @@ def gen_c09(rng, i):
             if not multi and rng.random() < 0.8:
                 # immediate retry without interference: must succeed if the first attempt failed for staleness
                 g.add(h=h)
+                if rng.random() < 0.3:
+                    # ... while a retry of the transaction as it was prepared before the refresh (same update index) must
+                    # fail if that index has been taken in the meantime
+                    g.steps[-1]["oldidx"] = True
+                    g.add(h=h)
                 g.steps.append({"op": "uptodate", "h": h, "tag": "C09"})
                 ntab += 1
             ntab += 1
